@@ -1,6 +1,7 @@
 package main
 
 import (
+	"os"
 	"strings"
 	"ti/cmd"
 	"ti/context"
@@ -10,9 +11,53 @@ import (
 	"ti/verifapi"
 )
 
-// verifRunProgram runs the four rounds exactly as main does (minus the goroutine, the
-// watchdog and preload), on the given source text, with the given flags and target row.
+// verifRunProgram runs the REAL main() on the given source text: the text becomes the file
+// `file` of the engine's virtual file system, os.Args is built from the flags and the target
+// row, and main's own code does the rest (ValidateArgs, BuildFlags, the four rounds with
+// getParser / ApplyParserFlags / cleanSimpleIdentifires / preload / evaluationLoop). The engine
+// runs main's worker goroutine sequentially; the 500 ms watchdog is the step budget.
+// Arguments the caller already placed in os.Args (--class=, --target=) are kept.
 func verifRunProgram(src, file string, flags *cmd.ExecuteFlags, targetRow int) {
+	verifapi.SetFile(strings.TrimPrefix(file, "./"), src)
+	args := []string{"ti", file}
+	add := func(on bool, fl ...string) {
+		if on {
+			args = append(args, fl...)
+		}
+	}
+	add(flags.IsDefineInfo, "-i")
+	add(flags.IsDefineAllInfo, "--define")
+	add(flags.IsSuggest, "--suggest")
+	add(flags.IsHover, "--hover")
+	add(flags.IsExtends, "--extends")
+	add(flags.IsLlmNavAll, "--llm-nav", "--all")
+	add(flags.IsLlmNav, "--llm-nav")
+	add(flags.IsLlmError, "--llm-error")
+	add(flags.IsLlmDefine, "--llm-define")
+	add(flags.IsLlmClass, "--llm-class")
+	if targetRow > 0 {
+		args = append(args, "--row="+verifRowText(targetRow))
+	}
+	for _, a := range os.Args {
+		if strings.HasPrefix(a, "--class=") || strings.HasPrefix(a, "--target=") {
+			args = append(args, a)
+		}
+	}
+	os.Args = args
+	main()
+}
+
+// verifRowText renders a (possibly solver-chosen) small row number.
+func verifRowText(i int) string {
+	if i < 10 {
+		return verifapi.Pick(i, "0", "1", "2", "3", "4", "5", "6", "7", "8", "9")
+	}
+	return verifRowText(i/10) + verifRowText(i%10)
+}
+
+// verifRunRounds: the former in-harness copy of main's round loop (no goroutine, no os.Args,
+// no file system); kept for the rune-level jobs whose input is a symbolic rune slice.
+func verifRunRounds(src, file string, flags *cmd.ExecuteFlags, targetRow int) {
 	for _, round := range context.GetRounds() {
 		lr := reader.VerifNew([]rune(src))
 		p := parser.New(lexer.New(lr), file)
@@ -50,6 +95,11 @@ var verifFrags = []string{
 	"dbtp", "p", "attr_reader", "attr_accessor", "include", "extend", "raise", "push", "replace", "merge", "nil?", "is_a?",
 	"true", "false", "Integer", "String", "Array", "1.5", "first", "%w", "'q'", "`", "Hash", "puts", "class <<", "super", "lambda", "[]",
 	"\"\"", "x.", "Foo.", "[1].", "@a.", "self.",
+	// whole statements (multi-token constructs that k<=2 single tokens cannot form)
+	"a, b = 1, \"s\"", "a, b = [1, 2]", "x ||= 1", "x = if true\n1\nelse\n2\nend", "x&.foo", "a[0] = 1", "h[:k] = 1", "[1].each { |e| e }",
+	"-> { 1 }", "1..2", "x ? 1 : 2", "puts(\"a\", 1)", "\"a#{x}b\"", "begin\n1\nrescue => e\n2\nend", "while x\nbreak\nend", "case x\nwhen 1 then 2\nend",
+	"x = *a", "def g(*a, **k, &b)\nend", "g(*a)", "x.y.z", "Foo::Bar.new", "@@c", "defined?", "next", "ensure", "loop do\nend", "def g = 1", "x = y = 1",
+	"a, *b = 1, 2", "x.foo = 1", "x += 1", "[1, \"s\"].first", "{k: 1}[:k]", "return 1 if x", "foo 1, 2", "x.each_with_index do |e, i|\nend",
 }
 
 const verifCoreN = 36
